@@ -438,6 +438,7 @@ def run(p, rep, tier):
     from . import c02, c12
 
     c02.r6(p, rep)  # non-integer sizes are rejected by a guard, not by a failing conversion deep in the solver
+    c12.r12(p, rep)  # positions of synthesised nodes must not reach the error constructors
     c12.r7(p, rep)  # an exclusive end position used as a caret position trips the asserts of the error constructors
     c12.r9(p, rep)  # an element taken from a sequence before the guard that protects it raises IndexError
     c12.r8(p, rep)  # a number test that disagrees with int() lets int() raise instead of the parser
